@@ -37,7 +37,7 @@ W_EXPIRES = {'k': 'rt_list', 'lcls': 'setcookie', 'elems': [{'cls': 'cookie', 'v
 W_COOKIE = {'k': 'rt', 'cls': 'cookie', 'value': 'v', 'cookie': ['n', 'v'], 'params': [['path', {'t': '/a;b'}]]}
 WITNESSES = [('D17-param-dquote-or-backslash-pair', W_DQUOTE), ('D17-param-dquote-or-backslash-pair', W_BSL), ('D1-percent-low-octet-ext-param', W_D1),
 	('D16-element-contains-encoded-word', W_EW), ('D33-cookie-params-never-quoted', W_COOKIE),
-	('D34-setcookie-expires-swallows-next-cookie', W_EXPIRES)]
+	('D34-setcookie-expires-rewrite', W_EXPIRES)]
 
 NAMES = ['a', 'b', 'filename', 'name', 'charset', 'boundary', 'path', 'domain', 'expires', 'max-age', 'httponly', 'secure', 'q', 'x-y', 'inline', 'attachment', 'form-data', 'c1', 'foo']
 TOKCH = "abcxyzABC019-._~!#$%&'*+^`|"
@@ -66,8 +66,8 @@ def gen_text(rng, lo=0, hi=6, domain='any'):
 			out.append(chr(rng.randint(0xd800, 0xdfff)))
 	s = ''.join(out)
 	if domain == 'prop':
-		s = s.strip(' \t\n\r\x0b\x0c')
 		s = ''.join(ch for ch in s if not 0xd800 <= ord(ch) <= 0xdfff)
+		s = s.strip(' \t\n\r\x0b\x0c')
 	return s
 
 
@@ -479,6 +479,11 @@ def _ext_charsets_ok(raw):
 	return True
 
 
+def _td_charsets_ok(td):
+	"""the RFC 2047 path re-encodes the element as UTF-8 before the parameters are parsed: charset names are then looked up in that form"""
+	return all(v is None or _ext_charsets_ok(bytes.fromhex(v)) for v in td.values())
+
+
 def _bytes_boundary(c):
 	return any(k == 'boundary' and v is not None and 'b' in v for k, v in c['params'])
 
@@ -506,7 +511,7 @@ def coq_case(c, o):
 		return t
 	if k == 'parse':
 		raw = bytes.fromhex(c['s'])
-		if not _ext_charsets_ok(raw):
+		if not _ext_charsets_ok(raw) or not _td_charsets_ok(o.get('td', {})):
 			return None
 		pr = cpresult(o)
 		return 'CBad' if pr is None else 'CParse %s %s %s %s' % (ctd(o['td']), COQ_CLS[c['cls']], X(raw), pr)
@@ -515,7 +520,7 @@ def coq_case(c, o):
 			return 'CBad'
 		raw = bytes.fromhex(c['v'])
 		t = ['CSplitList %s %s %s' % (LCLS[c['lcls']], X(raw), L([X(bytes.fromhex(p)) for p in o['pieces']], 'bytes'))]
-		if _ext_charsets_ok(raw):
+		if _ext_charsets_ok(raw) and _td_charsets_ok(o.get('td', {})):
 			prs = [cpresult(e) for e in o['elems']]
 			t.append('CBad' if any(p is None for p in prs) else 'CParseList %s %s %s %s' % (ctd(o['td']), LCLS[c['lcls']], X(raw), L(prs, 'presult')))
 		return t
@@ -600,8 +605,9 @@ def classify(c, o, fail):
 			return 'D33-cookie-params-never-quoted'
 		if ascii_ and ('"' in t or '\\\\' in t):
 			return 'D17-param-dquote-or-backslash-pair'
-		if c['k'] == 'rt_list' and c['lcls'] == 'setcookie' and e is not c['elems'][-1] and e['params'] and e['params'][-1][0].lower() == 'expires' and k == e['params'][-1][0]:
-			return 'D34-setcookie-expires-swallows-next-cookie'
+		if c['k'] == 'rt_list' and c['lcls'] == 'setcookie' and k.lower() == 'expires' and t and \
+				((e is not c['elems'][-1] and k == e['params'][-1][0]) or '\\' in t):
+			return 'D34-setcookie-expires-rewrite'
 		if not ascii_ and any(ord(ch) < 0x10 for ch in t):
 			return 'D1-percent-low-octet-ext-param'
 	return None
